@@ -26,6 +26,15 @@
 Q_LOGGING_CATEGORY(lcApp, "app.core")
 Q_LOGGING_CATEGORY(lcNet, "net")
 
+// a destination in trouble: it takes messages but cannot deliver them right now, and says so when asked to flush
+// (the documented extension point `bool flush() override`; docs/advanced.md)
+class TroubledSink : public QtLogger::Sink
+{
+public:
+    void send(const QtLogger::LogMessage &) override { }
+    bool flush() override { return false; }
+};
+
 static QByteArray body(const QString &tag, int size)
 {
     // unique tag + deterministic padding without spaces or line breaks
@@ -63,6 +72,7 @@ int main(int argc, char **argv)
     QCoreApplication *app = sc["app"].toBool() ? new QCoreApplication(argc, argv) : nullptr;
     (void)app;
 
+    const QString troubled = sc["troubled"].toString();
     std::atomic<bool> slowEntered { false };
     // the handler may be installed before the pipeline is filled (nothing logs yet): what counts at the fatal message is the
     // pipeline as it is then
@@ -74,12 +84,18 @@ int main(int argc, char **argv)
                 if (m.message().startsWith(QLatin1String("slow"))) { slowEntered = true; QThread::msleep(300); }
                 return true;
             });
-        gQtLogger.format(pattern).sendToFile(path, maxSize, 0, opt);
+        gQtLogger.format(pattern);
+        // a sink that reports a failing flush sits IN FRONT of the healthy file sink: a full volume ("/dev/full"), a custom sink
+        if (troubled == "devfull") gQtLogger.sendToFile(QStringLiteral("/dev/full"));
+        else if (troubled == "custom") gQtLogger << QtLogger::SinkPtr(new TroubledSink);
+        gQtLogger.sendToFile(path, maxSize, 0, opt);
         if (!installFirst) gQtLogger.installMessageHandler();
     } else if (style == "nested") {
         // README-style layout: sibling sub-pipelines, the file sink lives in the last one
         for (int i = 0; i < sc["siblings"].toInt(); i++)
             gQtLogger.pipeline().filterLevel(QtWarningMsg).format(QStringLiteral("%{message}")).handler([](QtLogger::LogMessage &) { return true; }).end();
+        if (troubled == "devfull") gQtLogger.pipeline().format(pattern).sendToFile(QStringLiteral("/dev/full")).end();
+        else if (troubled == "custom") gQtLogger.pipeline() << QtLogger::SinkPtr(new TroubledSink);
         if (sc["netFile"].toBool()) // a per-category log file: the fatal message (another category) never reaches this sink
             gQtLogger.pipeline().filterCategory(QStringLiteral("*=false\nnet=true")).format(pattern).sendToFile(dir + "/../net.log").end();
         gQtLogger.pipeline().format(pattern).sendToFile(path, maxSize, 0, opt).end();
